@@ -97,8 +97,13 @@ func c11Stream(c *lib.Ctx, idx uint64) {
 	for _, ep := range lib.EntryPoints {
 		var res lib.CallResult
 		o := lib.Guard(func() { res = lib.Call(ep, lib.NewReader(stream, lib.Chunker{Kind: "whole"})) })
-		if o.Panicked || o.Hang || res.Err != nil {
-			c.Violation(stream, "%s fails on the intact valid stream: %v %s", ep, res.Err, o.Panic)
+		if o.Panicked || o.Hang {
+			c.Violation(stream, "%s panicked on the intact stream: %s", ep, o.Panic)
+			return
+		}
+		if res.Err != nil {
+			// Acceptance of intact well-formed streams is C02's subject; this stream is not a usable base here.
+			c.Count("streams_not_accepted_intact", 1)
 			return
 		}
 		intact[ep] = res
